@@ -13,10 +13,17 @@ tie:    (a) STRUCTURAL  the REAL NearSQL object graph from ops.to_near_sql_imple
             annotation / ops_key left out) must be `erase (to_near ...)`, decided inside Coq (Model/SqlGenCases.v CStruct): view names
             canonicalised by first appearance; terms / container columns / declared dependencies as multisets (Python set iteration);
             SQL text character for character, the text of each pipeline expression taken from the real expr_to_sql; with
-            allow_extend_merges on and off;
+            allow_extend_merges on and off for SQLiteModel (RIGHT join rewritten, FULL native on SQLite >= 3.39), AND for
+            data_algebra.PostgreSQL.PostgreSQLModel() at the dialect record d_generic (RIGHT / FULL native, allow_extend_merges read from
+            the real model object -- the other setting too in the thorough tier -- join_carry probed per model class), so that
+            SQLGEN_correct_partial instantiated at d_generic is tied to the code that produces PostgreSQL text.  The graph compared is the
+            one returned by to_near_sql_implementation_, from which BOTH the WITH form (use_with / CTE elimination) and the nested form
+            are rendered: the tie is independent of those options (that the renderings mean the same is C04's theorem);
         (b) BEHAVIOURAL `nsem fl_sqlite` of the MODEL's tree evaluated inside Coq must be the table the REAL SQL text returns from
             SQLite 3.40.1 on the same tables (CSem) -- this validates Model/SqlSem.v against a real engine (all node kinds, joins
-            and windows included);
+            and windows included); the same for the PostgreSQL text (model tree generated at d_generic: native RIGHT / FULL joins)
+            executed on SQLite 3.40.1 with execcorr's shims, WITH form in the quick tier, WITH and nested (use_with=False) forms in
+            the thorough tier (no PostgreSQL server exists here: what differs between the engines is not covered);
         (c) the generated view names of the model tree are pairwise distinct (CDistinct, the theorem evaluated on the corpus).
 oracle: the implementation-level oracle of the property these theorems deepen (Pandas result vs SQLite result) is C01's and is
         not repeated over the whole corpus.  When (a) or (b) breaks, the failing pipelines are ordered (a real Pandas / SQL
@@ -155,43 +162,59 @@ def expr_texts(ops, model, acc=None, seen=None):
     return acc
 
 
-_CARRY = None
+_CARRY = {}
 
 
-def join_carry():
-    """does _natural_join_sub_queries let an unused side carry one column (the proposed repair)?  Read off the code's behaviour."""
-    global _CARRY
-    if _CARRY is None:
-        try:
-            from data_algebra.data_ops import TableDescription
-            a = TableDescription(table_name="pa", column_names=["x", "y"])
-            b = TableDescription(table_name="pb", column_names=["x", "z"])
-            ops = a.drop_columns(["x"]).natural_join(b, on=[], jointype="CROSS").select_columns(["x", "z"])
-            q = ops.to_near_sql_implementation_(db_model=make_model(True), using=None, temp_id_source=[0])
-            cols = q.sub_sql1.columns
-            _CARRY = cols is not None and len(list(cols)) > 0
-        except Exception:
-            _CARRY = False
-    return _CARRY
+def pg_default_merges():
+    """PostgreSQLModel().allow_extend_merges as the real model object has it"""
+    import data_algebra.PostgreSQL
+    return bool(data_algebra.PostgreSQL.PostgreSQLModel().allow_extend_merges)
 
 
-def dname(merges=True):
-    """the model's dialect record for the SQLiteModel under test: allow_extend_merges, RIGHT join rewritten, FULL join emulated only
-    below SQLite 3.39, unused join side carries a column (probed)"""
-    import sqlite3
-    return "(mk_dialect %s true %s %s)" % (cbool(merges), cbool(sqlite3.sqlite_version_info < (3, 39, 0)), cbool(join_carry()))
-
-
-def make_model(merges=True):
+def make_model(merges=True, dialect="sqlite"):
+    """dialect 'sqlite': SQLiteModel with allow_extend_merges set to `merges`; 'pg': PostgreSQLModel (merges=None: as the object has it)"""
+    if dialect == "pg":
+        import data_algebra.PostgreSQL
+        m = data_algebra.PostgreSQL.PostgreSQLModel()
+        if merges is not None:
+            m.allow_extend_merges = bool(merges)
+        return m
     import data_algebra.SQLite
     m = data_algebra.SQLite.SQLiteModel()
     m.allow_extend_merges = bool(merges)
     return m
 
 
-def struct_term(case, merges=True):
+def join_carry(dialect="sqlite"):
+    """does _natural_join_sub_queries let an unused side carry one column (/repo 6d4c3d4)?  Read off the code's behaviour, per model class."""
+    if dialect not in _CARRY:
+        try:
+            from data_algebra.data_ops import TableDescription
+            a = TableDescription(table_name="pa", column_names=["x", "y"])
+            b = TableDescription(table_name="pb", column_names=["x", "z"])
+            ops = a.drop_columns(["x"]).natural_join(b, on=[], jointype="CROSS").select_columns(["x", "z"])
+            q = ops.to_near_sql_implementation_(db_model=make_model(True, dialect), using=None, temp_id_source=[0])
+            cols = q.sub_sql1.columns
+            _CARRY[dialect] = cols is not None and len(list(cols)) > 0
+        except Exception:
+            _CARRY[dialect] = False
+    return _CARRY[dialect]
+
+
+def dname(merges=True, dialect="sqlite"):
+    """the model's dialect record for the model object under test.
+    sqlite: allow_extend_merges, RIGHT join rewritten, FULL join emulated only below SQLite 3.39, unused join side carries a column (probed)
+    pg    : d_generic -- allow_extend_merges as given (None: read from the real PostgreSQLModel object), RIGHT / FULL native, carry probed"""
+    if dialect == "pg":
+        mg = pg_default_merges() if merges is None else bool(merges)
+        return "(mk_dialect %s false false %s)" % (cbool(mg), cbool(join_carry("pg")))
+    import sqlite3
+    return "(mk_dialect %s true %s %s)" % (cbool(merges), cbool(sqlite3.sqlite_version_info < (3, 39, 0)), cbool(join_carry()))
+
+
+def struct_term(case, merges=True, dialect="sqlite"):
     """the CStruct literal of a case (raises Unsupported)"""
-    model = make_model(merges)
+    model = make_model(merges, dialect)
     ops = case.ops
     cop = semconv.cop(ops)
     txt = expr_texts(ops, model)
@@ -203,14 +226,15 @@ def struct_term(case, merges=True):
     except Exception as e:          # noqa
         case.gen_error = f"{type(e).__name__}: {str(e)[:120]}"
     obs = "None" if q is None else "(Some %s)" % ser(q, model)
-    d = dname(merges)
+    d = dname(merges, dialect)
     top = case.script["op"] in ("select_columns",)
     return "CStruct %s %s %s %s %s" % (d, cop, ctxt, obs, cbool(top))
 
 
-def sem_term(case, res):
+def sem_term(case, res, dialect="sqlite"):
+    """nsem of the model's tree (generated under the dialect record of `dialect`, merges as the real to_sql uses them) vs the table `res`"""
     ordered = X.order_is_total(case.script, res)
-    return "CSem %s %s %s %s %s %s" % (dname(True), semconv.cop(case.ops), semconv.cenv(case.frames), semconv.ctable(res), cbool(ordered),
+    return "CSem %s %s %s %s %s %s" % (dname(True if dialect == "sqlite" else None, dialect), semconv.cop(case.ops), semconv.cenv(case.frames), semconv.ctable(res), cbool(ordered),
                                             cbool(X.defines_column_order(case.script)))
 
 
@@ -361,6 +385,12 @@ def run(chk):
         "the list-based SQL semantics fixes one row order (input order kept by every step but ORDER BY); real engines may return another "
         "order where SQL leaves it open -- rows are compared as multisets unless the pipeline ends in a total order_rows",
         "a NATURAL JOIN with jointype CROSS is compared as INNER without ON (same rows); CROSS with keys is skipped"]
+    chk.cov["dialects"] = {
+        "sqlite": {"model": "SQLiteModel", "record": dname(True), "struct": "allow_extend_merges on and off", "sem": "to_sql() default options on SQLite 3.40.1"},
+        "postgresql": {"model": "PostgreSQLModel", "record": dname(None, "pg"), "allow_extend_merges_of_model_object": pg_default_merges(),
+                       "struct": "graph of to_near_sql_implementation_ (before WITH / CTE rendering: covers use_with on and off alike); merges as the model object has "
+                                 "them" + ("" if chk.tier == "quick" else " and the other setting"),
+                       "sem": "PostgreSQL text run on SQLite 3.40.1 with shims: WITH form" + ("" if chk.tier == "quick" else " and nested form (use_with=False)")}}
     chk.cov["rule"] = ("C01's case stream (random pipelines depth 1..5 over 2 tables, C01's shape families: mergeable / non-mergeable extend chains, pruning, shared "
                        "sub-pipelines, joins of all types, concat of filtered copies, limits, windows re-keyed by the extend below, empty tables) plus own shapes aimed at "
                        "the generator's guards (every output pruned, constant extend over join / concat, final order_rows, merge after a narrowing, id column over an "
@@ -398,6 +428,10 @@ def run(chk):
                 index.append((ci, "struct", merges))
             terms.append("CDistinct %s %s" % (dname(True), semconv.cop(c.ops)))
             index.append((ci, "distinct", True))
+            # the same correspondence for PostgreSQLModel (d_generic: RIGHT / FULL joins native); the other merge setting in the thorough tier
+            for merges in ((None,) if chk.tier == "quick" else (None, not pg_default_merges())):
+                terms.append(struct_term(c, merges, "pg"))
+                index.append((ci, "struct_pg", merges))
         except (Unsupported, semconv.Unsupported) as u:
             chk.dist("unsupported:" + str(u).split()[0])
             continue
@@ -424,6 +458,24 @@ def run(chk):
             index.append((ci, "sem", True))
         except semconv.Unsupported as u:
             chk.dist("sem_unsupported:" + str(u).split()[0])
+        # PostgreSQL text (WITH form; in the thorough tier also the nested form use_with=False) executed on SQLite 3.40 with execcorr's shims
+        for uw in ((True,) if chk.tier == "quick" else (True, False)):
+            try:
+                if uw:
+                    rp, ep = c.result("pgtext")
+                else:
+                    import data_algebra.sql_format_options as sfo
+                    rp = X.eval_sql(c.ops, c.frames, "postgres", options=sfo.SQLFormatOptions(use_with=False))
+            except Exception:
+                rp = None
+            if rp is None:
+                chk.dist("pgtext_raised" if uw else "pgtext_nested_raised")
+                continue
+            try:
+                terms.append(sem_term(c, rp, "pg"))
+                index.append((ci, "sem_pg", uw))
+            except semconv.Unsupported as u:
+                chk.dist("sem_unsupported:" + str(u).split()[0])
         if len(chk.cov["samples"]) < 3:
             chk.sample({"case": c.json()})
     failing, errors, nchecked = lib.run_case_files("SQLGEN", PRE, terms, "check_cases", per_file=24, timeout=1500)
@@ -457,6 +509,11 @@ def case_term(case, kind, merges):
         return None
     if kind == "struct":
         return struct_term(case, merges)
+    if kind == "struct_pg":
+        return struct_term(case, merges, "pg")
+    if kind == "sem_pg":
+        rp, ep = case.result("pgtext")
+        return None if rp is None else sem_term(case, rp, "pg")
     if kind == "distinct":
         return "CDistinct %s %s" % (dname(True), semconv.cop(case.ops))
     res, err = case.result("sqlite")
@@ -490,17 +547,9 @@ def shrink_batch(case, kind, merges):
 def still_fails(kind, merges):
     def f(case):
         try:
-            if uses_cross(case.ops):
+            t = case_term(case, kind, merges)
+            if t is None:
                 return False
-            if kind == "struct":
-                t = struct_term(case, merges)
-            elif kind == "distinct":
-                t = "CDistinct %s %s" % (dname(True), semconv.cop(case.ops))
-            else:
-                res, err = case.result("sqlite")
-                if res is None:
-                    return False
-                t = sem_term(case, res)
             failing, errors, n = lib.run_case_files("SQLGEN_shrink", PRE, [t], "check_cases", per_file=5, timeout=300)
             return bool(failing)
         except Exception:
@@ -537,6 +586,8 @@ def search_tables(rng, case, tries=30):
 def report(chk, case, kind, merges):
     what = {"struct": "the real NearSQL graph is not the one Model/SqlGen.v generates (allow_extend_merges=%s)" % merges,
             "sem": "the real SQL text executed on SQLite does not return what Model/SqlSem.v computes for the model's tree",
+            "struct_pg": "the real NearSQL graph of PostgreSQLModel is not the one Model/SqlGen.v generates at d_generic (allow_extend_merges=%s)" % merges,
+            "sem_pg": "the PostgreSQL text executed on SQLite (shims) does not return what Model/SqlSem.v computes for the d_generic tree (use_with=%s)" % merges,
             "distinct": "the generated view names are not pairwise distinct"}[kind]
     small = case
     try:
@@ -554,7 +605,7 @@ def report(chk, case, kind, merges):
         pass
     detail = {"case": small.json(), "kind": kind, "allow_extend_merges": merges, "generator_error": getattr(small, "gen_error", None)}
     try:
-        detail["sql"] = make_model(merges).to_sql(small.ops)
+        detail["sql"] = (make_model(None, "pg") if kind.endswith("_pg") else make_model(merges)).to_sql(small.ops)
     except Exception as e:      # noqa
         detail["sql_error"] = f"{type(e).__name__}: {str(e)[:200]}"
     if why:
@@ -576,7 +627,7 @@ def replay(path):
         return 1
     c = X.case_from_json(r["case"])
     kind = r.get("tie") or r.get("kind")
-    if kind in ("struct", "sem", "distinct"):
+    if kind in ("struct", "sem", "distinct", "struct_pg", "sem_pg"):
         bad = still_fails(kind, r.get("allow_extend_merges", True))(c)
         print("model/implementation disagreement persists" if bad else "model and implementation agree")
         why = pandas_vs_sqlite(c)
